@@ -331,7 +331,10 @@ def _reflectivity_case(nangle, nwave, rough):
         sig = E.real('roughness', lo=0, hi=50) if rough else 0
         real_ior = X.index_of_refraction
 
+        seen = []
+
         def ior(compound=None, density=None, natural_density=None, energy=None, wavelength=None):
+            seen.append((compound, density, natural_density))
             if E.symbolic:
                 return np.array([SymComplex(a, b) for a, b in zip(nre, nim)], dtype=object)
             return np.array([complex(a, b) for a, b in zip(nre, nim)])
@@ -340,8 +343,13 @@ def _reflectivity_case(nangle, nwave, rough):
             wl = np.array(lams, dtype=object if E.symbolic else float) if nwave > 1 else lams[0]
             an = np.array(angs, dtype=object if E.symbolic else float) if nangle > 1 else angs[0]
             R = xsf.mirror_reflectivity('Si', density=2.33, wavelength=wl, angle=an, roughness=sig)
+            # the material description reaches the index of refraction unchanged, whichever density keyword is used
+            nd = E.real('natural_density', lo=0, lo_open=True, hi=25)
+            xsf.mirror_reflectivity('D2O', natural_density=nd, wavelength=wl, angle=an, roughness=sig)
         finally:
             X.index_of_refraction = real_ior
+        E.fact('material_forwarded', len(seen) == 2 and seen[0] == ('Si', 2.33, None) and seen[1][0] == 'D2O' and seen[1][1] is None
+               and seen[1][2] is nd, note=repr(seen)[:200])
         E.fact('reflectivity_shape', isinstance(R, np.ndarray) and R.shape == (nangle, nwave), note=repr(getattr(R, 'shape', None)))
         for i in range(nangle):
             for j in range(nwave):
